@@ -190,7 +190,7 @@ const CONFIGS: [Cfg; 14] = [
 
 pub fn run(args: Args) -> ! {
     let mut rep = Report::new("C18", args.tier, args.seed);
-    rep.rule = "a battery crate is compiled against /repo once per feature configuration (6 quick / 14 thorough: default, perf, preserve_order, toml_edit parse-only / display-only, serde on/off, everything + unbounded, toml parse-only / display-only, with perf and preserve_order crossed in), each in its own target directory; every configuration must build. The battery is a seeded list of generated documents (valid in every lexical variant, mutants, long and repeated keys, over-limit nesting) of generated structures built through the API, of call histories on toml::Table, and of edit histories (new tables, pushed array-of-tables elements, new values, removals) on larger parsed documents whose header order differs from their tree order. Per item and capability the binary prints a canonical dump (decoded tree; the span of every key and item of a parsed document; printed text; ...); the harness requires: dumps equal across all configurations that have the capability and, for by-construction documents, equal to the harness' own expectation; toml's key order is insertion order under preserve_order and sorted without; over-limit nesting flips from reject to accept under unbounded only. non-trivial = the item has a key longer than 15 bytes or a repeated key (perf path) or >= 2 keys out of sorted order (preserve_order path); distinct by item".into();
+    rep.rule = "a battery crate is compiled against /repo once per feature configuration (6 quick / 14 thorough: default, perf, preserve_order, toml_edit parse-only / display-only, serde on/off, everything + unbounded, toml parse-only / display-only, with perf and preserve_order crossed in), each in its own target directory; every configuration must build. The battery is a seeded list of generated documents (valid in every lexical variant, mutants, long and repeated keys, over-limit nesting) of generated structures built through the API, of call histories on toml::Table, and of edit histories (new tables, pushed array-of-tables elements, new values, sort_values, removals) on larger parsed documents whose header order differs from their tree order. Per item and capability the binary prints a canonical dump (decoded tree; the span of every key and item of a parsed document; printed text; ...); the harness requires: dumps equal across all configurations that have the capability and, for by-construction documents, equal to the harness' own expectation; toml's key order is insertion order under preserve_order and sorted without; over-limit nesting flips from reject to accept under unbounded only. non-trivial = the item has a key longer than 15 bytes or a repeated key (perf path) or >= 2 keys out of sorted order (preserve_order path); distinct by item".into();
     rep.assumptions = vec!["configurations are built with the repository's lock file offline; the battery program shares no code with the harness".into()];
     let n_items = args.tier.pick(2000usize, 8000usize);
     // ---- battery (seeded, feature independent)
@@ -315,7 +315,8 @@ pub fn run(args: Args) -> ! {
                 apaths.retain(|p| p.iter().all(|k| !k.is_empty()));
                 let mut ops = String::new();
                 for _ in 0..3 + t.below(14) {
-                    match t.weighted(&[4, 4, 2, 1]) {
+                    match t.weighted(&[4, 4, 2, 1, 2]) {
+                        4 => ops.push_str(&format!("S{};", enc(t.pick(&tpaths)))),
                         0 => ops.push_str(&format!("T{};", enc(t.pick(&tpaths)))),
                         1 => {
                             if !apaths.is_empty() && t.chance(3, 4) {
